@@ -42,6 +42,15 @@ def feq(a, b, rel=1e-12):
     return abs(a - b) <= rel * max(1.0, abs(a), abs(b))
 
 
+def peq(a, b):
+    """parameters travel as text with 17 significant digits: equal means equal relative to their own size"""
+    if a == b:
+        return True
+    if math.isinf(a) or math.isinf(b) or a != a or b != b:
+        return (a != a and b != b)
+    return abs(a - b) <= 1e-13 * max(abs(a), abs(b))
+
+
 def check_final(final_path, uniq, allf, aif, rows):
     probs = []
     with open(final_path) as f:
@@ -89,7 +98,7 @@ def check_final(final_path, uniq, allf, aif, rows):
             ok = False
             for i in arg:
                 if name == allf[i] and feq(nll, rows[i][0]) and feq(cl, rows[i][1]) and feq(af, aif[i]) and \
-                        len(params) == len(rows[i][3:]) and all(feq(p, q) for p, q in zip(params, rows[i][3:])):
+                        len(params) == len(rows[i][3:]) and all(peq(p, q) for p, q in zip(params, rows[i][3:])):
                     ok = True
                     break
             if not ok:
